@@ -8,7 +8,8 @@ PROP = "C15"
 RUNNER = ("RunSamples", "run_C15")
 COQ_TARGETS = ["theories/RunSamples.vo"]
 AUTHORITY = ("C15_* (coq/props/C15.v): as_minimization facts and ranking; best = a candidate feasible in the requested sense that "
-             "no candidate strictly beats (a constrained observable judged by a checker), failure iff no candidate")
+             "no candidate strictly beats (a constrained observable judged by a checker), failure iff no candidate; C15_as_min_eval: "
+             "evaluating the converted instance = evaluating the original with the objective negated, same records / flags / ranking")
 RULE = ("as_min: random instances of either sense (+ unspecified sense, unset objective -> panic); best: sample sets with 1-8 sample "
         "ids, objective values from a small set (ties), grouped into entries, both senses (+0 and an invalid sense), feasibility "
         "patterns in the current fields (feasible_relaxed + feasible) and in the legacy 1.6.0 usage (feasible + feasible_unrelaxed, "
